@@ -115,6 +115,8 @@ type caseResult struct {
 	Stats   []string `json:"stats"`
 	Last    string   `json:"last,omitempty"`
 	MS      int64    `json:"ms"`
+	BuildMS int64    `json:"build_ms"`
+	GCMS    int64    `json:"gc_ms"`
 	PeakMB  int64    `json:"peak_mb"`
 	Ready   bool     `json:"ready,omitempty"`
 	Err     string   `json:"err,omitempty"`
@@ -287,8 +289,12 @@ func (c *child) runCase(d caseDesc) caseResult {
 		return caseResult{Class: clClient, Rec: fmt.Sprintf("1 %d 0", clClient), Note: "unknown generator " + d.G}
 	}
 	r := rec.NewRand(d.S)
+	tb := time.Now()
 	b := g.build(c.fx, r, d.V)
+	buildMS := time.Since(tb).Milliseconds()
+	tg := time.Now()
 	runtime.GC()
+	gcMS := time.Since(tg).Milliseconds()
 	base := heapBytes()
 	c.peak.Store(base)
 	t0 := time.Now()
@@ -347,6 +353,7 @@ func (c *child) runCase(d caseDesc) caseResult {
 		}
 	}
 	res.MS = time.Since(t0).Milliseconds()
+	res.BuildMS, res.GCMS = buildMS, gcMS
 	peak := c.peak.Load()
 	if h := heapBytes(); h > peak {
 		peak = h
@@ -549,6 +556,7 @@ func (rn *runner) run(d caseDesc) {
 		rn.p = p
 		w.Stat("child_starts", 1)
 	}
+	tStart := time.Now()
 	b, _ := json.Marshal(d)
 	_, werr := rn.p.stdin.Write(append(b, '\n'))
 	var r caseResult
@@ -595,6 +603,9 @@ func (rn *runner) run(d caseDesc) {
 		w.Stat("request."+className[c], 1)
 	}
 	w.Stat("ms."+d.G, int(r.MS))
+	w.Stat("build_ms."+d.G, int(r.BuildMS))
+	w.Stat("gc_ms", int(r.GCMS))
+	w.Stat("roundtrip_ms."+d.G, int(time.Since(tStart).Milliseconds()))
 	if r.MS > 3500 {
 		w.Stat("slow_cases_over_3.5s", 1)
 	}
